@@ -233,7 +233,10 @@ macro_rules! bezier_impl_quadratic_axis {
             // Also explained at https://pomax.github.io/bezierinfo/#extremities
             pub fn $x_inflection(self) -> Option<T> {
                 let div = self.start.$x - (self.ctrl.$x + self.ctrl.$x) + self.end.$x;
-                if div.abs() <= T::epsilon() {
+                // The threshold is relative to the size of the two terms of `div`,
+                // so that the answer doesn't depend on the unit of the control points.
+                let scale = (self.start.$x - self.ctrl.$x).abs() + (self.end.$x - self.ctrl.$x).abs();
+                if div.abs() <= T::epsilon() * scale {
                     return None;
                 }
                 let t = (self.start.$x - self.ctrl.$x) / div;
@@ -296,6 +299,16 @@ macro_rules! bezier_impl_cubic_axis {
                 let a = three * (self.end.$x - three * self.ctrl1.$x + three * self.ctrl0.$x - self.start.$x);
                 let b = six * (self.ctrl1.$x - two * self.ctrl0.$x + self.start.$x);
                 let c = three * (self.ctrl0.$x - self.start.$x);
+
+                // The roots don't change when a, b and c are divided by the same number;
+                // doing so makes the epsilon tests below relative to the size of the
+                // coefficients, i.e. independent of the unit of the control points.
+                let scale = a.abs().max(b.abs()).max(c.abs());
+                let (a, b, c) = if scale > T::zero() {
+                    (a / scale, b / scale, c / scale)
+                } else {
+                    (a, b, c)
+                };
 
                 // Wants to use IsBetween01, but that would annoyingly propagate the trait bound.
                 let is_between01 = |t| { T::zero() < t && t < T::one() };
